@@ -142,6 +142,18 @@ def run(ctx):
         dist["by_path"]["exported-386"] = dist["by_path"].get("exported-386", 0) + 1
         ctx.count(c + " 386", parse(c)["c"] not in (0, 1) and parse(c)["n"] >= 2)
         judge(c, i, mod_by_case[c], "386")
+    # the per-constant tables are built once per process (init): under processor counts that do not divide 65536 too - the top
+    # constants on every path, in processes started with GOMAXPROCS = 3, 7 and 12
+    import os as _os1
+    topc = ["c09 kern %s %d %d 70 rand %d 8" % (pth_, acc_, c_, rng.randrange(1 << 30)) for pth_ in ("disp0", "portable", "disp1") for acc_ in (0, 1)
+            for c_ in (65535, 65534, 65533, 65532, 65531, 65530, 65528, 65521, 43691, 21846)]
+    topm = ctx.run_lines(model, topc)
+    for gmp in ("3", "7", "12"):
+        topi = ctx.run_lines(vh, topc, env=dict(_os1.environ, GOMAXPROCS=gmp), shards=2)
+        for c, i, m in zip(topc, topi, topm):
+            ctx.count(c + " GOMAXPROCS=" + gmp, True)
+            dist["by_path"]["gomaxprocs-" + gmp] = dist["by_path"].get("gomaxprocs-" + gmp, 0) + 1
+            judge(c, i, m, "amd64 GOMAXPROCS=" + gmp)
     # mismatched lengths panic on the amd64 dispatch paths
     im = ctx.run_lines(vh, mm)
     mo = ctx.run_lines(model, mm)
